@@ -1,6 +1,180 @@
 import OnetVerif.Model.C05
-/-! Property C05 — property theorems, negation witnesses, `_partial` variants and non-vacuity
-examples only (helper lemmas that need Mathlib go to OnetVerif/Proofs/). -/
+/-! Property C05 — one instance's handlers run one at a time, in acceptance order; a blocked
+handler delays only its own instance.  All statements are for arbitrary schedules (`List Act`),
+hence unboundedly many feeders, messages and interleavings. -/
 namespace C05
+
+/-- the message whose handler is running, if any -/
+def cur (s : St) : List Nat := match s.pc with | .handling m => [m] | _ => []
+
+structure Inv (s : St) : Prop where
+  order  : s.accepted = s.finished ++ cur s ++ s.queue
+  start  : s.started = s.finished ++ cur s
+  wake   : s.pc = .waiting → s.queue ≠ [] → s.token = true
+
+theorem inv_init : Inv {} := by constructor <;> simp [cur]
+
+theorem inv_step (s s' : St) (a : Act) (h : Inv s) (hs : step s a = some s') : Inv s' := by
+  obtain ⟨ho, hst, hw⟩ := h
+  cases a with
+  | accept m =>
+    simp only [step] at hs
+    split at hs <;> simp at hs <;> subst hs
+    · exact ⟨ho, hst, hw⟩
+    · constructor <;> simp_all [cur]
+  | close => simp [step] at hs; subst hs; constructor <;> simp_all [cur]
+  | reader =>
+    simp only [step] at hs
+    split at hs
+    · split at hs
+      · simp at hs; subst hs; constructor <;> simp_all [cur]
+      · split at hs <;> simp at hs <;> subst hs <;> constructor <;> simp_all [cur]
+    · simp at hs; subst hs; constructor <;> simp_all [cur]
+    · split at hs <;> simp at hs; subst hs; constructor <;> simp_all [cur]
+    · simp at hs
+
+theorem inv_run (as : List Act) (s s' : St) (h : Inv s) (hr : run s as = some s') : Inv s' := by
+  induction as generalizing s with
+  | nil => simp [run] at hr; subst hr; exact h
+  | cons a as ih =>
+    simp only [run] at hr
+    split at hr
+    · exact ih _ (inv_step _ _ _ h ‹_›) hr
+    · exact ih _ h hr
+
+/-- **acceptance order**: under every schedule, the handlers that have started are exactly a
+prefix of the messages accepted for the instance, in acceptance order (nothing skipped,
+nothing reordered, nothing duplicated). -/
+theorem c05_fifo (as : List Act) (s : St) (hr : run {} as = some s) :
+    s.started <+: s.accepted := by
+  have h := inv_run as {} s inv_init hr
+  rw [h.start, h.order]; simp [List.append_assoc]
+
+/-- **one at a time**: a handler starts only after the previous one returned — the started
+handlers are the finished ones plus at most one running. -/
+theorem c05_serial (as : List Act) (s : St) (hr : run {} as = some s) :
+    ∃ running, s.started = s.finished ++ running ∧ running.length ≤ 1 := by
+  have h := inv_run as {} s inv_init hr
+  refine ⟨cur s, h.start, ?_⟩
+  unfold cur; split <;> simp
+
+/-- **no lost wake-up**: whenever the reader sleeps while a message is queued, the wake-up token is
+there; hence a reader with pending work and no running handler can always take a step. -/
+theorem c05_no_lost_wakeup (as : List Act) (s : St) (hr : run {} as = some s)
+    (hq : s.queue ≠ []) (hp : ∀ m, s.pc ≠ .handling m) (hst : s.pc ≠ .stopped) :
+    step s .reader ≠ none := by
+  have h := inv_run as {} s inv_init hr
+  cases hpc : s.pc with
+  | top =>
+    simp only [step, hpc]
+    split
+    · simp
+    · cases hq' : s.queue with
+      | nil => exact absurd hq' hq
+      | cons m q => simp
+  | handling m => exact absurd hpc (hp m)
+  | waiting =>
+    have := h.wake hpc hq
+    simp [step, hpc, this]
+  | stopped => exact absurd hpc hst
+
+/-- **everything accepted is handled**: in a state where the reader is blocked (no step enabled)
+and the instance was not closed, every accepted message has been handled to the end. -/
+theorem c05_quiescent_all_handled (as : List Act) (s : St) (hr : run {} as = some s)
+    (hblocked : step s .reader = none) (hc : s.closing = false) :
+    s.finished = s.accepted ∧ s.queue = [] := by
+  have h := inv_run as {} s inv_init hr
+  cases hpc : s.pc with
+  | top =>
+    simp only [step, hpc, hc] at hblocked
+    cases hq : s.queue <;> simp [hq] at hblocked
+  | handling m => simp [step, hpc] at hblocked
+  | waiting =>
+    simp only [step, hpc] at hblocked
+    have ht : s.token = false := by
+      cases ht : s.token <;> simp [ht] at hblocked ⊢
+    have hq : s.queue = [] := by
+      cases hq : s.queue with
+      | nil => rfl
+      | cons m q =>
+        have := h.wake hpc (by simp [hq])
+        simp [ht] at this
+    refine ⟨?_, hq⟩
+    have := h.order
+    simp [cur, hpc, hq] at this
+    exact this.symm
+  | stopped =>
+    -- the reader only stops after `close`
+    exfalso
+    have : ∀ (as : List Act) (s0 s : St), (s0.pc = .stopped → s0.closing = true) →
+        run s0 as = some s → s.pc = .stopped → s.closing = true := by
+      intro as
+      induction as with
+      | nil => intro s0 s h0 hr hp; simp [run] at hr; subst hr; exact h0 hp
+      | cons a as ih =>
+        intro s0 s h0 hr hp
+        simp only [run] at hr
+        split at hr
+        · rename_i s1 hs
+          refine ih s1 s ?_ hr hp
+          intro hp1
+          cases a with
+          | accept m =>
+            simp only [step] at hs
+            split at hs <;> simp at hs <;> subst hs
+            · exact h0 hp1
+            · simp at hp1; simpa using h0 hp1
+          | close => simp [step] at hs; subst hs; rfl
+          | reader =>
+            simp only [step] at hs
+            split at hs
+            · split at hs
+              · rename_i hcl; simp at hs; subst hs; exact hcl
+              · split at hs <;> simp at hs <;> subst hs <;> simp at hp1
+            · simp at hs; subst hs; simp at hp1
+            · split at hs <;> simp at hs; subst hs; simp at hp1
+            · simp at hs
+        · exact ih s0 s h0 hr hp
+    have := this as {} s (by simp) hr hpc
+    simp [hc] at this
+
+/-- **handing a message over never waits for a handler**: `accept` is enabled in every state,
+in particular while the instance's handler is blocked for ever. -/
+theorem c05_handover_nonblocking (s : St) (m : Nat) : step s (.accept m) ≠ none := by
+  simp only [step]; split <;> simp
+
+/-- **a blocked handler delays only its own instance**: on a server with any number of
+instances, (1) a step of instance `i` leaves every other instance untouched, and (2) whatever
+instance `i` is doing — including sitting in a handler that never returns — a message for another
+instance `j` can be handed over and `j`'s reader can start its handler. -/
+theorem c05_instances_independent (s s' : Server) (i j : Nat) (a : Act) (hij : j ≠ i)
+    (hs : sstep s (.at i a) = some s') : s' j = s j := by
+  simp only [sstep, Option.map_eq_some_iff] at hs
+  obtain ⟨t, _, ht⟩ := hs
+  subst ht; simp [hij]
+
+theorem c05_other_instance_progresses (s : Server) (i j : Nat) (m k : Nat) (hij : j ≠ i)
+    (hblocked : (s i).pc = .handling k) (hidle : (s j).pc = .top) (hq : (s j).queue = [])
+    (hc : (s j).closing = false) :
+    ∃ s1 s2, sstep s (.at j (.accept m)) = some s1 ∧ sstep s1 (.at j .reader) = some s2 ∧
+      (s2 j).pc = .handling m ∧ (s2 i).pc = .handling k := by
+  have hji : i ≠ j := fun e => hij e.symm
+  let t1 : St := { (s j) with queue := (s j).queue ++ [m], token := true, accepted := (s j).accepted ++ [m] }
+  let s1 : Server := fun x => if x = j then t1 else s x
+  let t2 : St := { t1 with queue := [], pc := .handling m, started := t1.started ++ [m] }
+  let s2 : Server := fun x => if x = j then t2 else s1 x
+  have e1 : sstep s (.at j (.accept m)) = some s1 := by
+    simp [sstep, step, hc, s1, t1]
+  have e2 : sstep s1 (.at j .reader) = some s2 := by
+    simp [sstep, step, hc, hidle, hq, s1, s2, t1, t2]
+  refine ⟨s1, s2, e1, e2, ?_, ?_⟩
+  · simp [s2, t2]
+  · simp [s2, s1, hji, hblocked]
+
+/-! ### non-vacuity: a concrete schedule with two feeders and a slow handler -/
+example : ∃ s, run {} [.accept 1, .reader, .accept 2, .accept 3, .reader, .reader, .reader, .reader] = some s ∧
+    s.started = [1, 2, 3] ∧ s.finished = [1, 2] ∧ s.accepted = [1, 2, 3] := by
+  refine ⟨_, rfl, ?_⟩; decide
+example : step { pc := .handling 7 } (.accept 9) ≠ none := c05_handover_nonblocking _ _
 
 end C05
